@@ -10,6 +10,7 @@ import (
 
 	"verif/checks/c01"
 	"verif/checks/c02"
+	"verif/checks/c10"
 	"verif/fw"
 	"verif/wm"
 )
@@ -234,9 +235,27 @@ func Run(r *fw.Run) {
 	}
 	for _, sc := range c02.Scopes(r.Quick()) {
 		sc := sc
+		stride := 1
 		if r.Quick() && (sc.Name == "S-single" || sc.Name == "S-dir") {
-			continue
+			stride = 4 // the full products run with the same invariant inside C02's own check
 		}
-		fw.Explore(r, "C02/"+sc.Name, sc.Mode, func(c *fw.Ctx) Case { return Case{sc.Gen(c), false} }, Eval)
+		fw.Explore(r, "C02/"+sc.Name, sc.Mode, func(c *fw.Ctx) Case {
+			w := sc.Gen(c)
+			c.Stride(stride)
+			return Case{w, false}
+		}, Eval)
+	}
+	// ingress / route worlds ({ingress-controller} lines, incl. backends that reach no container port)
+	for name, gen := range map[string]func(*fw.Ctx) *wm.World{"ingress": c10.GenIngress, "route": c10.GenRoute, "ingress+route": c10.GenBoth, "same-name-two-namespaces": c10.GenTwoNamespaces} {
+		gen := gen
+		stride := map[bool]int{true: 16, false: 2}[r.Quick()]
+		if name == "ingress+route" || name == "same-name-two-namespaces" {
+			stride = 1
+		}
+		fw.Explore(r, "C10/"+name, fw.Full, func(c *fw.Ctx) Case {
+			w := gen(c)
+			c.Stride(stride)
+			return Case{w, false}
+		}, Eval)
 	}
 }
